@@ -282,14 +282,55 @@ def binds_name(node, name):
     st = node.ast
     if node.kind == 'stmt':
         if isinstance(st, ast.Assign):
-            return any(isinstance(x, ast.Name) and x.id == name for t in st.targets for x in ast.walk(t))
+            return any(isinstance(x, ast.Name) and x.id == name and isinstance(x.ctx, ast.Store)
+                       for t in st.targets for x in ast.walk(t))
         if isinstance(st, (ast.AugAssign, ast.AnnAssign)):
             return isinstance(st.target, ast.Name) and st.target.id == name
         if isinstance(st, (ast.FunctionDef, ast.ClassDef)):
             return st.name == name
     if node.kind == 'iter':
-        return any(isinstance(x, ast.Name) and x.id == name for x in ast.walk(st.target))
+        return any(isinstance(x, ast.Name) and x.id == name and isinstance(x.ctx, ast.Store) for x in ast.walk(st.target))
     return False
+
+
+def may_raise(node):
+    """can executing this CFG node raise (conservatively: anything but moving names/constants around)?"""
+    st = node.ast
+    if node.kind == 'join':
+        if isinstance(st, ast.Try):
+            return bool(st.body) and _stmt_may_raise(st.body[0])
+        return False
+    if node.kind == 'test':
+        return _expr_may_raise(st.test)
+    if node.kind == 'iter':
+        return True
+    if node.kind == 'stmt':
+        return _stmt_may_raise(st)
+    return False
+
+
+def _expr_may_raise(e):
+    for sub in ast.walk(e):
+        if isinstance(sub, (ast.Call, ast.Subscript, ast.BinOp, ast.Attribute, ast.Await, ast.Yield, ast.YieldFrom,
+                            ast.UnaryOp, ast.Compare, ast.Starred, ast.ListComp, ast.GeneratorExp, ast.DictComp, ast.SetComp)):
+            if isinstance(sub, ast.UnaryOp) and isinstance(sub.op, ast.Not):
+                continue
+            return True
+    return False
+
+
+def _stmt_may_raise(st):
+    if isinstance(st, (ast.Pass, ast.Break, ast.Continue, ast.Global, ast.Nonlocal)):
+        return False
+    if isinstance(st, ast.Assign):
+        if all(isinstance(t, ast.Name) for t in st.targets) and not _expr_may_raise(st.value):
+            return False
+        return True
+    if isinstance(st, ast.Return):
+        return st.value is not None and _expr_may_raise(st.value)
+    if isinstance(st, ast.Expr):
+        return _expr_may_raise(st.value)
+    return True
 
 
 def reaching_defs(cfg, name, at):
